@@ -65,4 +65,17 @@ func registerSpecs() {
 		Stub: []string{"message network between the two conversations (two queues; delivery order, faults and attacker injections from the choice tape)", "application on both sides (operation lists generated up front)", "Conversation.Rand (seeded ChaCha8 stream per side), crypto/rand (testing/cryptotest.SetGlobalRandom, seeded)"},
 		Assumptions: []string{"fault-free configuration: each direction is FIFO; data messages are sent only after the key exchange has settled when AKE starts can cross (a message encrypted while the peer restarts the AKE is unreadable by protocol design)", "End is issued only when nothing is in flight towards the ending side (messages arriving after End cannot be read by design)", "SMP rounds are started one at a time; equal secrets must succeed only in rounds in which the responder was asked and answered; after a failed round the responder-not-asked outcome is observed, not asserted", "modified = the base64-decoded bytes up to and including the authenticator differ, or the message no longer decodes; changes confined to the old-MAC-keys field or to non-significant base64 bits are unauthenticated by design and not asserted", "application messages contain no NUL byte"},
 	}
+	sauthStub := append([]string{"adversarial client (real key exchange through ssh.VerifRawClient, then raw USERAUTH packets built by the harness)", "authentication callbacks with generated outcome tables (accept / reject / partial success naming the next stage / Permissions with source-address / BannerError / VerifiedPublicKeyCallback)", "abstract RFC 4252 authentication session as reference model"}, sshStub...)
+	specs["C32"] = &spec{
+		Harness: "sauth", Level: "exploration", QuickRuns: 12000, ThoroughRuns: 300000, Chunk: 300,
+		Rule: "one case = (callback outcome tables for up to 3 partial-success stages, NoClientAuth, VerifiedPublicKeyCallback behaviour, MaxAuthTries, PublicKeyAuthAlgorithms subset, remote address) x a history of 1-6 requests over {none, password right/wrong, keyboard-interactive right/wrong/short, publickey query, publickey signed valid / over another session id / user / service / by another key of the same type / with another signature format / with trailing bytes / with an algorithm of another key family, unknown method, user change, wrong service} for 3 key types, with optional client disconnect; non-trivial = the key exchange completed and at least one request was sent; distinct = distinct hash of (schedule, request/response/callback events)",
+		Real: sshReal, Stub: sauthStub,
+		Assumptions: []string{"validity of a signed request is known by construction (the harness builds the signed data of RFC 4252 section 7 itself)", "completeness is asserted only for fully valid requests whose callback accepts, with well-formed matching source-address lists, before any limit", "an invalid signature may be answered with a failure or by dropping the connection"},
+	}
+	specs["C33"] = &spec{
+		Harness: "sauth", Level: "exploration", QuickRuns: 12000, ThoroughRuns: 300000, Chunk: 300,
+		Rule: "same histories as C32 plus long histories of 100-140 never-failing requests (public key queries) ending in a valid signed request, MaxAuthTries in {-1,0,1,2,3,6}, source-address lists with IPv4/IPv6 addresses, CIDRs, malformed entries and empty values against IPv4/IPv6/non-TCP remote addresses; non-trivial/distinct as for C32",
+		Real: sshReal, Stub: sauthStub,
+		Assumptions: []string{"'an initial none attempt is free' is read both ways (first request only / first none before any failure): the server must have disconnected once the failure count reaches MaxAuthTries under the lenient reading", "a source-address option admits the client only if some entry validly matches (exact IP or CIDR); how malformed entries are treated otherwise is not asserted"},
+	}
 }
